@@ -1049,9 +1049,15 @@ class sptensor:
         if isinstance(other, ttb.tensor):
             if not self.shape == other.shape:
                 assert False, "Must be tensors of the same shape"
-            BB = sptensor(self.subs, other[self.subs][:, None], self.shape)
-            C = self.logical_and(BB)
-            return C
+            # True where both the stored value and the dense value are nonzero
+            keep = (self._dense_vals_at_subs(other) != 0).transpose()[0]
+            if not keep.any():
+                return sptensor(shape=self.shape)
+            return sptensor(
+                self.subs[keep],
+                np.ones((int(keep.sum()), 1), dtype=self.vals.dtype),
+                self.shape,
+            )
 
         # Otherwise
         assert False, "The arguments must be two sptensors or an sptensor and a scalar."
